@@ -116,8 +116,8 @@ class SmtLibCommand(namedtuple('SmtLibCommand', ['name', 'args'])):
                 option_name, value = a
                 if ":signed" != option_name:
                     outstream.write(" %s %s" % (option_name, value))
-                else:
-                    outstream.write(" %s " % option_name)
+                elif value:
+                    outstream.write(" %s" % option_name)
             outstream.write(")")
 
         elif self.name in [smtcmd.MINMAX, smtcmd.MAXMIN]:
